@@ -432,50 +432,38 @@ def r01d(ck, prog):
                                      "finalise_alignment marks the msa final without setting alnlen", prog.config)
     if nfinal == 0:
         raise AnalysisBroken("R01d: nobody assigns ALN_STATUS_FINAL")
-    # gates
+    # gates: decided by evaluating the exporter once per status value (kcheck/scenario.py; undecidable conditions such as the
+    # format dispatch are followed both ways): rows are touched - a writer is called, the loop over the rows is entered - exactly
+    # when the status is ALN_STATUS_FINAL, however the test is spelled (inline, through a predicate helper, as a switch)
+    from ..scenario import Run, Undecided
+    final = prog.macro_int("ALN_STATUS_FINAL")
+    values = sorted({prog.macro_int(m_) for m_ in ("ALN_STATUS_UNALIGNED", "ALN_STATUS_ALIGNED", "ALN_STATUS_UNKNOWN", "ALN_STATUS_FINAL")} | {0})
     for gname in ("kalign_write_msa", "kalign_msa_to_arr"):
         G = prog.fn(gname)
-        tests = []
-        for b in G.body.find("BinaryOperator"):
-            if b.d["op"] in ("==", "!=") and any(m.d.get("field") == "aligned" for m in b.find("MemberExpr")) and \
-                    any(macro_of_const(l) == "ALN_STATUS_FINAL" for l in b.find("IntegerLiteral")):
-                tests.append(b)
+        mp = [p_["name"] for p_ in G.params if (p_["ty"] or "").replace("const ", "").startswith("struct msa *")]
+        if len(mp) != 1:
+            raise AnalysisBroken("R01d slot: the msa parameter of %s was not found" % gname)
         where = site(prog, G, "gate")
-        ck.inst("R01d", where, "%s tests msa->aligned against ALN_STATUS_FINAL (%d test(s))" % (gname, len(tests)), prog.config)
-        if not tests:
-            ck.violation("R01d", "R01d/%s/gate-missing" % gname, where,
-                         "%s no longer requires ALN_STATUS_FINAL before exporting rows" % gname, prog.config)
-            continue
-        # every consumer (writer call / read of sequences) must be unreachable when the test fails:
-        # the failing branch must lead to the ERROR exit.  Check: from function entry, consumers are not
-        # reachable when avoiding the test position ... and the test's failure edge jumps to ERROR.
-        t = tests[0]
-        cfg = G.cfg
-        tpos = cfg.position(t)
-        consumers = [c for c in G.body.calls() if c.callee and c.callee.startswith("write_msa_")]
-        consumers += [m for m in member_accesses(G.body, "msa", "sequences")]
-        for c in consumers:
-            cp = cfg.position(c)
-            if cp is not None and cfg.reaches(None, cp, avoid=[tpos]):
-                ck.violation("R01d", "R01d/%s/gate-bypass" % gname, site(prog, c),
-                             "%s reaches %s without passing the ALN_STATUS_FINAL test" % (gname, c.text()[:40]), prog.config)
-                break
-        # polarity: a goto ERROR must be guarded by (aligned != FINAL) true / (== FINAL) false
-        ok = False
-        for g in G.body.find("GotoStmt"):
-            for cond, pol in guards(g):
-                if t.within(cond) or cond.strip() is t:
-                    x = cond.strip()
-                    eff = pol
-                    while x is not t and x.k == "UnaryOperator" and x.d["op"] == "!":
-                        eff = not eff
-                        x = x.kids[0].strip()
-                    if x is t and ((t.d["op"] == "!=" and eff) or (t.d["op"] == "==" and not eff)):
-                        ok = True
-        if not ok:
-            ck.violation("R01d", "R01d/%s/gate-polarity" % gname, site(prog, t),
-                         "the ALN_STATUS_FINAL test of %s does not send the non-final case to the error exit" % gname,
-                         prog.config)
+        reached = {}
+        for v in values:
+            r = Run(prog, G, {"%s->aligned" % mp[0]: v}, fork=True, keep=("write_msa_fasta", "write_msa_msf", "write_msa_clu"))
+            try:
+                tr = r.run()
+            except Undecided as e:
+                raise AnalysisBroken("R01d: %s is not evaluated for status %d: %s" % (gname, v, e))
+            reached[v] = [t for t in tr if (t[1] or "").startswith("write_msa_") or t[0] == "loop"]
+        ck.inst("R01d", where, "%s touches rows for status values %s (ALN_STATUS_FINAL = %d)" % (gname, sorted(v for v in values if reached[v]), final), prog.config)
+        if not any(reached.values()):
+            raise AnalysisBroken("R01d slot: %s reaches no writer / row loop for any status" % gname)
+        bad = [v for v in values if v != final and reached[v]]
+        if bad:
+            ck.violation("R01d", "R01d/%s/gate-missing" % gname, site(prog, reached[bad[0]][0][4], "gate"),
+                         "%s no longer requires ALN_STATUS_FINAL before exporting rows: with msa->aligned == %s it reaches %s" % (
+                             gname, bad, reached[bad[0]][0][1] or "the loop over the rows"), prog.config)
+        if not reached[final]:
+            ck.violation("R01d", "R01d/%s/gate-polarity" % gname, where,
+                         "the ALN_STATUS_FINAL test of %s does not let the final case through: no writer / row loop is reached for a "
+                         "finished alignment" % gname, prog.config)
 
 
 def r01e(ck, prog):
@@ -709,6 +697,35 @@ def r01j(ck, prog, root="kalign_run", render_root="finalise_alignment"):
     ck.info("R01j", "%d store(s) into msa_seq.seq elements in the functions kalign_run reaches" % n)
 
 
+def r01l(ck, prog):
+    """a FASTA record is known by its whole header line: the number of bytes read_fasta copies into msa_seq.name resolves
+    (reaching definitions) to the stored length of the line and to nothing else - a name cut at a blank makes distinct
+    headers ('Drosophila melanogaster', 'Drosophila simulans') the same name, and the canonical (length, name) order of such
+    records then follows the input order"""
+    from ..util import reaching_sources
+    F = prog.fn("read_fasta")
+    n = 0
+    for c in F.body.calls("memcpy", "strncpy", "snprintf", "memmove"):
+        if not c.args or not any(m.d.get("field") == "name" and m.d.get("rec") == "msa_seq" for m in c.args[0].find("MemberExpr")):
+            continue
+        ln = c.args[1] if c.callee == "snprintf" else c.args[2]
+        src = set()
+        for r in [x for x in ln.walk() if x.k == "DeclRefExpr" and x.d.get("dk") == "Var"] or [ln]:
+            src |= reaching_sources(F, r)
+        n += 1
+        where = site(prog, c, "name copy")
+        ck.inst("R01l", where, "read_fasta copies %s bytes of the header into the name (sources %s)" % (ln.text(), sorted(src)), prog.config)
+        fields = {t for t in src if t.endswith("->len") or t.endswith(".len")}
+        other = src - fields
+        if len(fields) != 1:
+            raise AnalysisBroken("R01l: the length of the name copy in read_fasta does not resolve to the stored line length (%s)" % sorted(src))
+        if other:
+            ck.violation("R01l", "R01l/read_fasta/name-cut", where,
+                         "the number of header bytes copied into the name is %s or %s: the name is not always the whole header line, so "
+                         "headers that differ only behind the cut become the same name" % (sorted(fields)[0], sorted(other)), prog.config)
+    ck.floor("R01l", n, 1, "name copies in read_fasta")
+
+
 def _r01j_control(ck):
     from ..controls import control_program
     from ..report import Check
@@ -761,6 +778,7 @@ def r01k(ck, prog):
 def run(ck, progs):
     describe(ck)
     ck.rule("R01j", "between reading and rendering nothing kalign_run reaches stores into elements of msa_seq.seq")
+    ck.rule("R01l", "read_fasta copies the whole header line into the name: the copied length resolves to the stored line length only")
     ck.rule("R01k", "no sorting call between kalign_run and the export of the rows in the functions that call both")
     ck.rule("R01i", "finalise_alignment renders all numseq sequences; make_linear_sequence writes the gaps[j] dashes before residue j")
     ck.rule("R01h", "no length-capped copy of a sequence name from one record into another is reachable from the API functions")
@@ -770,6 +788,7 @@ def run(ck, progs):
     for cfg, prog in progs.items():
         ck.attempt(r01a, ck, prog)
         ck.attempt(r01b, ck, prog)
+        ck.attempt(r01l, ck, prog)
         ck.attempt(r01c, ck, prog)
         ck.attempt(r01d, ck, prog)
         ck.attempt(r01e, ck, prog)
